@@ -2,9 +2,15 @@
 use super::*;
 
 const VALID_23B: &[&str] = &["CRED", "CRTS", "SPAY", "SPRI", "SSTD"];
-const VALID_23E: &[&str] = &["CHQB", "CORT", "HOLD", "INTC", "PHOB", "PHOI", "PHON", "REPA", "SDVA", "TELB", "TELE", "TELI"];
-const WITH_INFO: &[&str] = &["PHON", "PHOB", "PHOI", "TELE", "TELB", "TELI", "HOLD", "REPA"];
-const ORDER: &[&str] = &["SDVA", "INTC", "REPA", "CORT", "HOLD", "CHQB", "PHOB", "TELB", "PHON", "TELE", "PHOI", "TELI"];
+const VALID_23E: &[&str] = &[
+    "CHQB", "CORT", "HOLD", "INTC", "PHOB", "PHOI", "PHON", "REPA", "SDVA", "TELB", "TELE", "TELI",
+];
+const WITH_INFO: &[&str] = &[
+    "PHON", "PHOB", "PHOI", "TELE", "TELB", "TELI", "HOLD", "REPA",
+];
+const ORDER: &[&str] = &[
+    "SDVA", "INTC", "REPA", "CORT", "HOLD", "CHQB", "PHOB", "TELB", "PHON", "TELE", "PHOI", "TELI",
+];
 const BAD_PAIRS: &[(&str, &[&str])] = &[
     ("SDVA", &["HOLD", "CHQB"]),
     ("INTC", &["HOLD", "CHQB"]),
@@ -33,7 +39,10 @@ pub fn expected(v: &RView) -> Expect {
     for (i, c) in e23.iter().enumerate() {
         e.must_if(e23[..i].contains(c), "E46");
     }
-    let pos: Vec<usize> = e23.iter().filter_map(|c| ORDER.iter().position(|o| o == c)).collect();
+    let pos: Vec<usize> = e23
+        .iter()
+        .filter_map(|c| ORDER.iter().position(|o| o == c))
+        .collect();
     e.must_if(pos.windows(2).any(|w| w[1] < w[0]), "D98");
     for (a, bad) in BAD_PAIRS {
         if e23.iter().any(|c| c == a) && e23.iter().any(|c| bad.contains(&c.as_str())) {
@@ -54,7 +63,11 @@ pub fn expected(v: &RView) -> Expect {
     }
     // C3 (E01, E02)
     if b23 == "SPRI" {
-        e.must_if(e23.iter().any(|c| !["SDVA", "TELB", "PHOB", "INTC"].contains(&c.as_str())), "E01");
+        e.must_if(
+            e23.iter()
+                .any(|c| !["SDVA", "TELB", "PHOB", "INTC"].contains(&c.as_str())),
+            "E01",
+        );
     }
     if b23 == "SSTD" || b23 == "SPAY" {
         e.must_if(!e23.is_empty(), "E02");
@@ -66,7 +79,9 @@ pub fn expected(v: &RView) -> Expect {
     e.must_if(b23 == "SPRI" && has(&f, "56*"), "E16");
     e.must_if((b23 == "SSTD" || b23 == "SPAY") && has(&f, "56D"), "E17");
     // C7 (E13, D50, E15)
-    let a71 = get(&f, "71A").map(|x| x.content.clone()).unwrap_or_default();
+    let a71 = get(&f, "71A")
+        .map(|x| x.content.clone())
+        .unwrap_or_default();
     match a71.as_str() {
         "OUR" => e.must_if(has(&f, "71F"), "E13"),
         "SHA" => e.must_if(has(&f, "71G"), "D50"),
@@ -93,7 +108,13 @@ pub fn expected(v: &RView) -> Expect {
         }
     }
     // C16 (E44), C17 (E45)
-    e.must_if(!has(&f, "56*") && e23.iter().any(|c| c == "TELI" || c == "PHOI"), "E44");
-    e.must_if(!has(&f, "57*") && e23.iter().any(|c| c == "TELE" || c == "PHON"), "E45");
+    e.must_if(
+        !has(&f, "56*") && e23.iter().any(|c| c == "TELI" || c == "PHOI"),
+        "E44",
+    );
+    e.must_if(
+        !has(&f, "57*") && e23.iter().any(|c| c == "TELE" || c == "PHON"),
+        "E45",
+    );
     e
 }
